@@ -179,7 +179,7 @@ class Sequence(object):
                             raise MissingRequiredParameter("%s expected opening tag %d" % (element.name, element.context))
                         else:
                             # omitted optional element
-                            setattr(self, element.name, [])
+                            setattr(self, element.name, None)
                             continue
                     taglist.Pop()
 
